@@ -911,6 +911,10 @@ def capi_sessions(tier, seed):
         "MATCH (h:Hub)-[r:L]->(s:Spoke) SET s += {p: null, extra: 1} DELETE h",
         "MATCH (s:Spoke) REMOVE s:Spoke WITH s MATCH (h:Hub) DELETE h",
         "MATCH (h:Hub)-[r:L]->(s:Spoke) DELETE r WITH h CREATE (:T {v: toBoolean(1)})",
+        # resource-limit errors (the C API runs with its default limits) after earlier rows / clauses have written
+        "UNWIND [1, 2, 3000000] AS k CREATE (n:T {k: k}) WITH n, k SET n.width = size(range(1, k))",
+        "MATCH (s:Spoke) SET s.touched = true CREATE (:T {k: 7}) RETURN size(range(1, 3000000)) AS n",
+        "CREATE (:T {k: 8}) WITH 1 AS one UNWIND range(1, 3000000) AS i RETURN count(i) AS n",
     ]
     ok_a = S(stmt(updates=[u_create(chain([npat("a", ["Ok"], {"n": 1})], []))]))
     ok_b = S(stmt(updates=[u_create(chain([npat("a", ["Ok"], {"n": 2}), npat("b", ["Ok2"])], [("", "K", "out")]))]))
